@@ -184,6 +184,8 @@ def trace_case(draw, tier):
     last = math.ceil(F(arrivals[-1]) * tps)
     nticks = max(last + draw(st.sampled_from([2, 1, 0, -1, 5])), 0)
     case = {"tps": tps, "arrivals": arrivals, "nticks": nticks}
+    if draw(st.integers(0, 5)) == 0:
+        case["tail"] = draw(st.sampled_from(["inf", "1e300", "Infinity", "1e18"]))      # a last pipeline that arrives long after any run
     if draw(st.integers(0, 3)) == 0:
         case["idstyle"] = draw(st.sampled_from(sorted(ID_STYLES)))
     if draw(st.integers(0, 24)) == 0:
@@ -273,6 +275,9 @@ def run_roundtrip(params, out, P):
         with open(pf, "w") as f:
             for k, v in params.items():
                 f.write(f"{k} = {v!r}\n" if not isinstance(v, bool) else f"{k} = {'true' if v else 'false'}\n")
+        # the output file already exists and holds an older, longer trace: --force replaces it
+        with open(of, "w") as f:
+            f.write(HEADER + "".join(f"old{i},{i * 0.5},BATCH_PIPELINE,op1,,1,const,,1\n" for i in range(400)))
         with contextlib.redirect_stdout(io.StringIO()):
             gentrace_command(pf, of, force=True)
         text = open(of).read()
@@ -280,12 +285,16 @@ def run_roundtrip(params, out, P):
         for x in (pf, of):
             if os.path.exists(x):
                 os.remove(x)
-    with io.StringIO(text) as fh:
-        wl = CSVWorkloadReader(fh).get_workload(tps)
-        replayed = []
-        for t in range(nticks):
-            for p in wl.run_one_tick():
-                replayed.append((t, fingerprint(p)))
+    try:
+        with io.StringIO(text) as fh:
+            wl = CSVWorkloadReader(fh).get_workload(tps)
+            replayed = []
+            for t in range(nticks):
+                for p in wl.run_one_tick():
+                    replayed.append((t, fingerprint(p)))
+    except Exception as e:
+        P("C13:roundtrip-raised", f"replaying the file written by gentrace raised {type(e).__name__}: {e}")
+        return len({t for t, _ in direct})
     out.extra_evals = len(direct)
     events = len({t for t, _ in direct})
     # what `run` really simulates: run_simulator(params) with its built-in workload, seen by a scheduler that only watches
@@ -360,11 +369,19 @@ def run_case(spec):
         out.label("ids_spelled_" + idstyle)
     if len(arrivals) > 1000:
         out.label("dense_trace_1000plus")
+    text = csv_of(arrivals, idstyle)
+    if spec.get("tail"):
+        out.label("far_future_last_arrival")
+        text += f"zz-last,{spec['tail']},BATCH_PIPELINE,op1,,1,const,,1\n"
     try:
-        delivered = replay(csv_of(arrivals, idstyle), tps, nticks)
+        delivered = replay(text, tps, nticks)
     except Exception as e:
         P("C13:replay-raised", f"{type(e).__name__}: {e}")
         return out
+    if spec.get("tail"):
+        if any(pid == "zz-last" for _, pid in delivered):
+            P("C13:early", f"the pipeline arriving at {spec['tail']} s was delivered within {nticks} ticks")
+        delivered = [(t, pid) for t, pid in delivered if pid != "zz-last"]
     out.extra_evals = nticks
     judge(arrivals, tps, nticks, delivered, P, idstyle)
     ticks = [math.ceil(F(a) * tps) for a in arrivals]
